@@ -179,12 +179,26 @@ def unravel(k, shape):
         for n in reversed(cs[1:]): out.append(ck % n); ck //= n
         out.append(ck); return tuple(reversed(out))
     if len(shape) == 1: return (k,)
+    ones = [i for i, n in enumerate(cs) if n == 1]
+    if ones and len(ones) < len(shape):                 # extents of size 1 contribute the digit 0: unravel over the remaining axes only
+        rest = [n for i, n in enumerate(shape) if i not in ones]
+        sub = list(unravel(k, tuple(rest))); out = []
+        for i in range(len(shape)): out.append(0 if i in ones else sub.pop(0))
+        return tuple(out)
+    if _mentions_binder(toz3(k)):
+        # k depends on the bound variable of an enclosing reduction: Skolem CONSTANTS would not vary with it -> exact div/mod digits instead
+        out = []; rem = toz3(k)
+        for n in reversed(shape[1:]): out.append(rem % toz3(n)); rem = rem / toz3(n)
+        out.append(rem); return tuple(reversed(out))
     key = (z3.simplify(toz3(k)).sexpr(), tuple(z3.simplify(toz3(n)).sexpr() for n in shape))
     if key not in _unravel_cache:
         idx = [z3.Int(f"u{len(_unravel_cache)}_{ax}") for ax in range(len(shape))]
         cons = [z3.And(i >= 0, i < toz3(n)) for i, n in zip(idx, shape)] + [toz3(k) == ravel(idx, shape)]
         _unravel_cache[key] = (tuple(idx), cons); SIDE.extend(cons)
     return _unravel_cache[key][0]
+def _mentions_binder(t):
+    if z3.is_const(t) and t.decl().kind() == z3.Z3_OP_UNINTERPRETED and t.decl().name().startswith("%b"): return True
+    return any(_mentions_binder(c) for c in t.children())
 def reshape(a, sh):
     """row-major reshape. Common trailing dims are passed through; only the leading block is ravelled/unravelled."""
     if len(sh) == 1 and isinstance(sh[0], (tuple, list)): sh = tuple(sh[0])
@@ -429,6 +443,17 @@ def scatter(o, idx, v, mode, interp):
                 return binop_("Add", cur, z3.If(cond, nvz, zero))
             return Ite(cond, nv, cur)
         return SArr(o.shape, get)
+    # ints and FULL slices, e.g. x.at[i, :].add(v) / x.at[:, j].add(v): one update per position of the sliced axes, no duplicates
+    if all((not isinstance(i, SArr)) and (not isinstance(i, slice) or (i.start is None and i.stop is None and i.step is None)) for i in idx) and any(isinstance(i, slice) for i in idx):
+        idxn = tuple(i if isinstance(i, slice) else norm_index(i, n) for i, n in zip(idx, o.shape)); k = len(idxn)
+        def gets(full):
+            cond = z3.And(*[toz3(a) == toz3(b) for a, b in zip(full[:k], idxn) if not isinstance(b, slice)])
+            free = tuple(a for a, b in zip(full[:k], idxn) if isinstance(b, slice)) + tuple(full[k:])
+            cur = o.get(tuple(full)); nv = _el(v, free) if isinstance(v, SArr) else v
+            if mode == "add":
+                nvz, zero = coerce_pair(nv, 0); return binop_("Add", cur, z3.If(cond, nvz, zero))
+            return Ite(cond, nv, cur)
+        return SArr(o.shape, gets)
     # (int, arange, index-array): rows are distinct, so no duplicate-index semantics is involved
     if len(idx) == 3 and not isinstance(idx[0], (SArr, slice)) and isinstance(idx[1], SArr) and idx[1].tag and idx[1].tag[0] == "arange" \
             and concrete_int(idx[1].tag[1]) == 0 and isinstance(idx[2], SArr) and idx[2].ndim == 1 and o.ndim == 3:
